@@ -82,6 +82,10 @@ def strcmp_literals(tu, f, var, depth=2):
             if d.get('kind') == 'DeclRefExpr':
                 nm = d.get('referencedDecl', {}).get('name')
                 v = tu.vars.get(nm)
+                if v is None and d.get('referencedDecl', {}).get('kind') == 'VarDecl':
+                    v = tu.by_id.get(d['referencedDecl'].get('id'))      # a function-local static table
+                    if v is not None and not any(x.get('kind') == 'InitListExpr' for x in C.walk(v)):
+                        v = None
                 if v is not None:
                     return [C.string_value(x) for x in C.walk(v) if x.get('kind') == 'StringLiteral' and C.string_value(x) is not None]
         return []
